@@ -291,6 +291,17 @@ func loadTables(p *Prog, kind string) *codecTables {
 				ct.c2nPos[e.key.ExactString()] = e.pos
 			}
 		}
+	} else if mt := extractReverseScan(p, ct.c2nFn); mt != nil {
+		// reverse scan of the name->type literal: the first name of a code in source order stands for it here; a code
+		// with two names is reported from the name table (the scan would return either, map order being random)
+		for _, e := range mt.entries {
+			if e.key.Kind() == constant.String {
+				if _, dup := ct.c2n[e.val.ExactString()]; !dup {
+					ct.c2n[e.val.ExactString()] = constant.StringVal(e.key)
+					ct.c2nPos[e.val.ExactString()] = e.pos
+				}
+			}
+		}
 	} else {
 		undecided("no constant switch or map-literal lookup in %s", ct.c2nFn)
 	}
@@ -505,6 +516,33 @@ func extractMapTable(p *Prog, f *ssa.Function) *mapTable {
 	if lk == nil {
 		return nil
 	}
+	return mapLiteralOf(p, g, lk.Index)
+}
+
+// extractReverseScan: the type->name direction written as a scan of the name->type map literal
+// (`for name, t := range table { if t == x { return name } }`): the entries of that literal, inverted by the caller.
+func extractReverseScan(p *Prog, f *ssa.Function) *mapTable {
+	var g *ssa.Global
+	eachInstr(f, func(i ssa.Instruction) {
+		rg, ok := i.(*ssa.Range)
+		if !ok {
+			return
+		}
+		if u, ok := rg.X.(*ssa.UnOp); ok && u.Op == token.MUL {
+			if gg, ok := u.X.(*ssa.Global); ok {
+				if _, isMap := gg.Type().(*types.Pointer).Elem().Underlying().(*types.Map); isMap {
+					g = gg
+				}
+			}
+		}
+	})
+	if g == nil {
+		return nil
+	}
+	return mapLiteralOf(p, g, nil)
+}
+
+func mapLiteralOf(p *Prog, g *ssa.Global, index ssa.Value) *mapTable {
 	for _, pk := range p.Pkgs {
 		if pk.Types != g.Pkg.Pkg {
 			continue
@@ -525,7 +563,7 @@ func extractMapTable(p *Prog, f *ssa.Function) *mapTable {
 						if !ok {
 							return nil
 						}
-						mt := &mapTable{index: lk.Index}
+						mt := &mapTable{index: index}
 						for _, el := range cl.Elts {
 							kv, ok := el.(*ast.KeyValueExpr)
 							if !ok {
